@@ -50,11 +50,35 @@ def worker_init(repo):
     warnings.filterwarnings("ignore")
 
 
+RUN_WALL_S = int(os.environ.get("QSIM_RUN_WALL_S", "300"))
+_POISONED = False
+
+
+class RunTimeout(BaseException):
+    """One simulated run exceeded its wall-clock limit (every plan is bounded and normally takes well under a
+    second; the largest strata take a few seconds)."""
+
+
+def _alarm(signum, frame):
+    raise RunTimeout()
+
+
 def execute_plan(prop, plan):
     """Run one plan; harness problems become {'harness_error': ...}."""
+    import signal
+
+    if _POISONED:
+        return {"harness_error": "this worker interpreter was interrupted by a run that exceeded its wall limit; its state is no longer trusted (no verdict)", "violations": []}
     mod = load_check(prop)
+    use_alarm = hasattr(signal, "setitimer") and __import__("threading").current_thread() is __import__("threading").main_thread()
+    if use_alarm:
+        old = signal.signal(signal.SIGALRM, _alarm)
+        signal.setitimer(signal.ITIMER_REAL, RUN_WALL_S)
     try:
         return mod.execute(plan)
+    except RunTimeout:
+        globals()["_POISONED"] = True  # the interrupt may have hit anything (an import, a torch kernel wrapper ...)
+        return {"harness_error": f"run did not finish within {RUN_WALL_S} s (no verdict); plan config: {json.dumps(plan.get('config'), default=str)[:600]}", "violations": []}
     except HarnessError as e:
         return {"harness_error": str(e), "violations": []}
     except Exception as e:  # noqa: BLE001  anything escaping execute() is ours
@@ -62,6 +86,10 @@ def execute_plan(prop, plan):
             "harness_error": "".join(traceback.format_exception(type(e), e, e.__traceback__)),
             "violations": [],
         }
+    finally:
+        if use_alarm:
+            signal.setitimer(signal.ITIMER_REAL, 0)
+            signal.signal(signal.SIGALRM, old)
 
 
 def exec_chunk(prop, tier, verif_seed, idxs, want_trace):
@@ -292,7 +320,7 @@ def _exec_range_subprocess(prop, tier, verif_seed, idxs):
         env = dict(os.environ, VERIF_SEED=str(verif_seed), PYTHONDONTWRITEBYTECODE="1")
         p = subprocess.run(
             [sys.executable, "-B", os.path.join(VERIF_DIR, "qsim", "cli.py"), prop, "--tier", tier, "--exec-indices", ",".join(map(str, idxs)), "--out", out],
-            env=env, cwd=VERIF_DIR, capture_output=True, text=True, timeout=CHUNK_WALL_S,
+            env=env, cwd=VERIF_DIR, capture_output=True, text=True, timeout=min(CHUNK_WALL_S, RUN_WALL_S + 60 * max(1, len(idxs) // 8)),
         )
         if p.returncode == 0:
             with open(out) as f:
